@@ -86,6 +86,22 @@ def build_simnode(features, hook=True, quiet=True):
     return out
 
 
+def build_shim():
+    """Compiles shim/detsys.c into bin/detsys.so (the simulated-kernel seam)."""
+    os.makedirs(BIN, exist_ok=True)
+    out = os.path.join(BIN, "detsys.so")
+    src = os.path.join(VERIF, "shim", "detsys.c")
+    with BuildLock("build-shim"):
+        if os.path.exists(out) and os.path.getmtime(out) >= os.path.getmtime(src):
+            return out
+        p = subprocess.run(["clang", "-O2", "-shared", "-fPIC", "-o", out + ".tmp", src, "-ldl"],
+                           stdout=subprocess.PIPE, stderr=subprocess.STDOUT, text=True)
+        if p.returncode != 0:
+            raise HarnessError("building detsys.so failed:\n" + p.stdout)
+        os.replace(out + ".tmp", out)
+    return out
+
+
 class Batch:
     """Merged result of one fan-out of seeded runs."""
 
@@ -186,7 +202,7 @@ def match_known(prop, vclass, detail, trace):
 
 # ---------------------------------------------------------------- violations -------------
 
-def handle_violations(prop, binary, build_desc, engine, mode, batch, vseed):
+def handle_violations(prop, binary, build_desc, engine, mode, batch, vseed, env_extra=None):
     """Minimises, writes replay files, confirms each in a fresh process.
     Returns (n_unlisted_violations, n_known)."""
     os.makedirs(os.path.join(VERIF, "replays"), exist_ok=True)
@@ -203,8 +219,11 @@ def handle_violations(prop, binary, build_desc, engine, mode, batch, vseed):
         with open(raw, "w") as f:
             json.dump({"trace": v["trace"]}, f)
         mini = os.path.join(WORK, "mini-%s-%s.json" % (prop, v["s"]))
+        env = dict(os.environ)
+        if env_extra:
+            env.update(env_extra)
         p = subprocess.run([binary, engine, "minimize", "--trace", raw, "--out", mini, "--budget", "30"],
-                           stdout=subprocess.PIPE, stderr=subprocess.PIPE, text=True)
+                           stdout=subprocess.PIPE, stderr=subprocess.PIPE, text=True, env=env)
         if p.returncode == 0 and os.path.exists(mini):
             with open(mini) as f:
                 m = json.load(f)
@@ -217,12 +236,13 @@ def handle_violations(prop, binary, build_desc, engine, mode, batch, vseed):
             "original_violation": {"class": vclass, "detail": v["detail"]},
             "trace": m["trace"],
         }
-        rel = os.path.join("replays", "%s-%s.json" % (prop, v["s"]))
+        tagname = feat_tag(build_desc.get("features", []), build_desc.get("hook", True)) + ("-shim" if build_desc.get("shim") else "")
+        rel = os.path.join("replays", "%s-%s-%s-%s.json" % (prop, tagname, mode, v["s"]))
         path = os.path.join(VERIF, rel)
         with open(path, "w") as f:
             json.dump(replay, f, indent=1)
         # fresh-process confirmation
-        ok, got = confirm_replay(binary, engine, path, m["violation"]["class"])
+        ok, got = confirm_replay(binary, engine, path, m["violation"]["class"], env)
         if not ok:
             # fall back to the unminimised trace
             replay["trace"] = v["trace"]
@@ -230,7 +250,7 @@ def handle_violations(prop, binary, build_desc, engine, mode, batch, vseed):
             replay["minimised"] = None
             with open(path, "w") as f:
                 json.dump(replay, f, indent=1)
-            ok, got = confirm_replay(binary, engine, path, vclass)
+            ok, got = confirm_replay(binary, engine, path, vclass, env)
             if not ok:
                 raise HarnessError("violation %s of %s (run %d) does not reproduce in a fresh process (got %s); "
                                    "simulator nondeterminism" % (vclass, prop, v["i"], got))
@@ -245,8 +265,8 @@ def handle_violations(prop, binary, build_desc, engine, mode, batch, vseed):
     return unlisted, known
 
 
-def confirm_replay(binary, engine, path, want_class):
-    p = subprocess.run([binary, engine, "exec", "--trace", path], stdout=subprocess.PIPE, stderr=subprocess.PIPE, text=True)
+def confirm_replay(binary, engine, path, want_class, env=None):
+    p = subprocess.run([binary, engine, "exec", "--trace", path], stdout=subprocess.PIPE, stderr=subprocess.PIPE, text=True, env=env)
     try:
         d = json.loads(p.stdout.strip().splitlines()[-1])
     except Exception:
@@ -335,7 +355,111 @@ def check_c20(tier):
     return 1 if total_viol else 0
 
 
-CHECKS = {"C20": check_c20}
+def run_plan(prop, plan, tier, vseed):
+    """plan: list of dicts {label, features, engine, mode, runs, shim}. Returns (batches, unlisted)."""
+    results = []
+    unlisted = 0
+    for item in plan:
+        binary = build_simnode(item["features"], hook=True)
+        env = None
+        if item.get("shim"):
+            env = {"LD_PRELOAD": build_shim(), "DETSYS_RAND_SEED": str(vseed)}
+        b = run_batch(binary, item["engine"], item["mode"], tier, item["runs"], vseed, env_extra=env)
+        results.append((item, b))
+        if b.violations:
+            desc = {"features": item["features"], "hook": True, "shim": bool(item.get("shim"))}
+            u, _k = handle_violations(prop, binary, desc, item["engine"], item["mode"], b, vseed, env_extra=env)
+            unlisted += u
+    return results, unlisted
+
+
+def sum_counter(results, key):
+    return sum(b.counters.get(key, 0) for _, b in results)
+
+
+def check_c01(tier):
+    t0 = time.time()
+    vseed = seed()
+    q = tier == "quick"
+    R = ["ring", "pem", "x509-parser"]
+    A = ["aws_lc_rs", "pem", "x509-parser"]
+    N = ["pem", "x509-parser"]
+    plan = [
+        {"label": "ring/plain", "features": R, "engine": "sign-sim", "mode": "plain", "runs": 2400 if q else 40000},
+        {"label": "ring/faults", "features": R, "engine": "sign-sim", "mode": "faults", "runs": 2400 if q else 40000},
+        {"label": "ring/enum", "features": R, "engine": "sign-sim", "mode": "enum", "runs": 480 if q else 12000},
+        {"label": "ring+shim/rng", "features": R, "engine": "sign-sim", "mode": "rng", "runs": 1600 if q else 30000, "shim": True},
+        {"label": "ring+shim/enum-rng", "features": R, "engine": "sign-sim", "mode": "enum-rng", "runs": 320 if q else 8000, "shim": True},
+        {"label": "aws_lc_rs/plain", "features": A, "engine": "sign-sim", "mode": "plain", "runs": 1600 if q else 30000},
+        {"label": "aws_lc_rs/faults", "features": A, "engine": "sign-sim", "mode": "faults", "runs": 1600 if q else 30000},
+        {"label": "aws_lc_rs/enum", "features": A, "engine": "sign-sim", "mode": "enum", "runs": 320 if q else 8000},
+        {"label": "no-crypto/faults", "features": N, "engine": "sign-sim", "mode": "faults", "runs": 1600 if q else 30000},
+        {"label": "no-crypto/enum-remote", "features": N, "engine": "sign-sim", "mode": "enum-remote", "runs": 320 if q else 8000},
+    ]
+    results, unlisted = run_plan("C01", plan, tier, vseed)
+    evaluations = sum(len(b.runs) for _, b in results)
+    dn = sum(b.distinct_nontrivial() for _, b in results)
+    samples = []
+    for item, b in results:
+        if b.samples and len(samples) < 3:
+            samples.append({"batch": item["label"], "trace": b.samples[0]})
+    fault_kinds = {
+        "remote_signer_returns_Err": sum_counter(results, "signer_faults_fired_err"),
+        "remote_signer_returns_opaque_bytes": sum_counter(results, "signer_faults_fired_opaque"),
+        "getrandom_fault_fired_during_local_signing": sum_counter(results, "rng_faults_fired"),
+        "getrandom_EINTR": sum_counter(results, "rng_fault_kind_0"),
+        "getrandom_short_read": sum_counter(results, "rng_fault_kind_1"),
+        "getrandom_EIO": sum_counter(results, "rng_fault_kind_2"),
+        "getrandom_EPERM": sum_counter(results, "rng_fault_kind_3"),
+        "enumerated_signer_fail_points": sum_counter(results, "enum_signer_points"),
+        "enumerated_getrandom_fail_points": sum_counter(results, "enum_rng_points"),
+    }
+    algs = {}
+    for _, b in results:
+        for k, v in b.counters.items():
+            if k.startswith("alg_"):
+                algs[k[4:]] = algs.get(k[4:], 0) + v
+    coverage = {
+        "evaluations": evaluations,
+        "distinct_nontrivial": dn,
+        "rule": "one evaluation = one seeded issuance history (2-4 key slots in local or remote custody, 3-10 operations: self-sign, "
+                "issue, CSR, issue-from-CSR, CRL) executed under one fault plan, or — in the enum modes — the fault-free execution "
+                "plus one re-execution per signer call / getrandom call with exactly that call failing; non-trivial = at least one "
+                "injected fault actually fired, or (fault-free batches) at least one remote signature checked byte-for-byte and "
+                ">= 3 artefacts verified; distinct = distinct explicit-trace hashes among those",
+        "samples": samples,
+        "batches": [batch_cov(i["label"], b) for i, b in results],
+        "fault_kinds_fired": fault_kinds,
+        "artefacts_checked": sum_counter(results, "artefacts_checked"),
+        "artefacts_by_kind": {k: sum_counter(results, "artefact_" + k) for k in ("cert", "csr", "crl")},
+        "signatures_verified_by_openssl": sum_counter(results, "openssl_verified"),
+        "remote_exact_bytes_checked": sum_counter(results, "remote_exact_bytes_checked"),
+        "opaque_embeddings_checked": sum_counter(results, "opaque_embeddings_checked"),
+        "signing_algorithm_x_custody": dict(sorted(algs.items())),
+        "tbs_length_forms_reached": sorted(set().union(*[b.cover.get("tbs_len_form", set()) for _, b in results])),
+        "operations": sum_counter(results, "ops"),
+        "scenarios_executed": sum_counter(results, "scenarios"),
+        "errors_without_fault(expected refusals: CRL dates, issuer usage, CSR-unsupported fields)": sum_counter(results, "err_without_fault"),
+        "panics_without_fault(not judged: C10)": sum_counter(results, "panic_without_fault"),
+        "simulated_time": "rcgen has no clock; logical steps = operations",
+        "real_components": ["rcgen", "yasna", "time", "pem", "x509-parser", "ring / aws-lc-rs (per batch)"],
+        "simulated_components": ["remote signer (real OpenSSL crypto inside, simulated failure behaviour)",
+                                 "getrandom on ring builds (detsys.so, seeded stream + fail points)",
+                                 "hash state of name maps (hook H1)"],
+        "exhaustive": False,
+        "exhaustive_note": "per sampled scenario every signer call and every getrandom call of the fault-free execution is failed once (enum batches); scenarios themselves are sampled",
+    }
+    assumptions = [
+        "OpenSSL 3.0 is the independent verifier and the remote signer's crypto",
+        "the harness TLV reader and the hand-written AlgorithmIdentifier table are correct",
+        "aws-lc-rs randomness cannot be seamed; no RNG faults are injected there",
+        "for local keys the bytes handed to the signing primitive are observed only cryptographically",
+    ]
+    write_evidence("C01", tier, "fault_enumeration", coverage, assumptions, time.time() - t0, unlisted)
+    return 1 if unlisted else 0
+
+
+CHECKS = {"C20": check_c20, "C01": check_c01}
 
 
 def replay(path):
@@ -343,7 +467,10 @@ def replay(path):
         r = json.load(f)
     b = r["build"]
     binary = build_simnode(b["features"], hook=b.get("hook", True))
-    p = subprocess.run([binary, r["engine"], "exec", "--trace", path, "-v"], stdout=subprocess.PIPE, stderr=subprocess.PIPE, text=True)
+    env = dict(os.environ)
+    if b.get("shim"):
+        env.update({"LD_PRELOAD": build_shim(), "DETSYS_RAND_SEED": str(r.get("verif_seed", DEFAULT_SEED))})
+    p = subprocess.run([binary, r["engine"], "exec", "--trace", path, "-v"], stdout=subprocess.PIPE, stderr=subprocess.PIPE, text=True, env=env)
     sys.stdout.write(p.stdout)
     if p.returncode == 1:
         log("VIOLATION property=%s replay=%s" % (r["property"], path))
